@@ -25,7 +25,7 @@ package pe
 // descriptors always demands a selection: an empty submission for it is incomplete), and an "all"
 // rule or a pick with a positive minimum demands credentials whatever else is said.
 //@ func (PresentationDefinition).CredentialsRequired
-//@   prop C12
+//@   prop C02 C12
 //@   pure heap
 //@   ensures [nothing-required-only-without-input-descriptors] !result ==> len(presentationDefinition.InputDescriptors) == 0
 //@ func (PresentationDefinition).PresentationSubmissionBuilder
@@ -54,7 +54,7 @@ package pe
 // succeeded on - credentials and descriptor map together; with no matching wallet an error is reported
 // unless the definition requires no credentials (then the selection is empty, never partial).
 //@ func (*PresentationSubmissionBuilder).Build
-//@   prop C12 C19
+//@   prop C02 C12 C19
 //@   safety
 //@   requires len(b.wallets) == len(b.holders)
 //@   loop 1 invariant selectedDID == nil && len(b.wallets) == len(b.holders) && len(b.wallets) > 0
@@ -72,7 +72,7 @@ package pe
 // of the envelope, Build (i.e. Match) produced a selection, the two maps have the same size and every
 // expected descriptor is mapped to a credential with the same raw form - the result is the expected map.
 //@ func (PresentationSubmission).Validate
-//@   prop C12 C19
+//@   prop C02 C12 C19
 //@   assume-benign
 //@   loop 1 invariant !did(call credential.PresentationSigner #1) || isNilIface(ret(call credential.PresentationSigner #1).1)
 //@   loop 1 invariant len(submissionBuilder.wallets) == len(submissionBuilder.holders) && same(submissionBuilder.presentationDefinition, definition)
